@@ -198,6 +198,40 @@ def replay(ctx, case, clause):
     judge(ctx, clause, 'cold', job, rep, case['kind'])
 
 
+def file_activity():
+    """Operations for 'the other thread': a file is saved, measured (iteration + length, i.e. a merge) and loaded.  Whatever
+    these calls switch on or off for their own duration is visible to the thread next door while they run."""
+    from .ref import smf
+    eot = ['meta', 0, 0x2F, []]
+    ta = [[['ch', 0, 0x90, [60, 100]], ['sysex', 5, [1, 2, 3]], ['meta', 0, 0x51, [7, 161, 32]], ['meta', 3, 0x01, [104, 105]],
+           ['ch', 96, 0x80, [60, 0]], eot], [['meta', 0, 0x03, [65, 66]], ['ch', 1, 0xC5, [9]], eot]]
+    data, _ = smf.encode_file(1, 96, [[tuple(e) for e in t] for t in ta])
+    return [{'fn': 'save', 'fmt': 1, 'division': 96, 'tracks': ta, 'want': data.hex()},
+            {'fn': 'timing', 'data': data.hex(), 'want': '__sequential__'},
+            {'fn': 'load', 'data': data.hex(), 'want': '__sequential__'}]
+
+
+FILE_MODULES = ['mido.midifiles.midifiles', 'mido.midifiles.meta', 'mido.midifiles.tracks', 'mido.messages.checks', 'mido.messages.messages']
+
+
+def parser_overlap_jobs():
+    """Two threads, each with a parser of its own, parse at the same time streams that use the same status bytes with
+    other data bytes (steady state, one pre-emption anywhere in tokenizer / parser / decoder): each gets its own messages."""
+    from .ref import midi1
+
+    def stream(specs):
+        return {'fn': 'parse_all', 'arg': [b for t, a in specs for b in midi1.encode(t, a)], 'want': [msg_want(t, a) for t, a in specs]}
+    a = [('note_on', {'channel': 3, 'note': 60, 'velocity': 100}), ('control_change', {'channel': 1, 'control': 7, 'value': 8}),
+         ('pitchwheel', {'channel': 5, 'pitch': 100}), ('sysex', {'data': [1, 2]}), ('program_change', {'channel': 2, 'program': 9}),
+         ('songpos', {'pos': 5}), ('quarter_frame', {'frame_type': 1, 'frame_value': 2})]
+    b = [('note_on', {'channel': 3, 'note': 61, 'velocity': 1}), ('control_change', {'channel': 1, 'control': 9, 'value': 10}),
+         ('pitchwheel', {'channel': 5, 'pitch': -7}), ('sysex', {'data': [5]}), ('program_change', {'channel': 2, 'program': 10}),
+         ('songpos', {'pos': 300}), ('quarter_frame', {'frame_type': 3, 'frame_value': 4})]
+    mods = ['mido.tokenizer', 'mido.parser', 'mido.messages.decode', 'mido.messages.checks', 'mido.messages.messages', 'mido.messages.specs']
+    return [{'modules': mods, 'fresh': False, 'jobs': [[stream(a[:4])], [stream(b[:4])]], 'k': 1},
+            {'modules': mods, 'fresh': False, 'jobs': [[stream(a[4:]), stream(b[:2])], [stream(b[4:]), stream(a[:2])]], 'k': 1}]
+
+
 def msg_want(t, a, cls='Message', time=0):
     want = {'type': t, 'time': time, 'class': cls}
     want.update({k: list(v) if isinstance(v, tuple) else v for k, v in a.items()})
